@@ -23,42 +23,48 @@ EXTENDS MetricOps, Json
 CONSTANTS Arity,        \* len(m.Keys)
           Tuples,       \* sequence of label tuples of length Arity (the universe)
           BadTuples,    \* sequence of label tuples of another length
-          VType,        \* "Int" | "Float" | "String" | "Buckets"  (metrics.Type)
+          VTypes,       \* subset of {"Int", "Float", "String", "Buckets"}  (metrics.Type)
+          WideTypes,    \* types explored over all Tuples; the others use the first two only
           MaxTs,        \* timestamps handed to datum updates are 1..MaxTs
+          ValBound,     \* bound on counter values / observation counts (finite state space)
           Expiries,     \* set of expiry durations (>0) handed to ExpireDatum
           Mode,         \* "check" | "graph" | "walk"   what Emit prints
           WalkLen,      \* length of emitted walks in Mode "walk"
-          Alphabet, KeyArity, KeyMaxLen   \* domain of the key-encoding state space
+          Alphabet, KeyDomains   \* key-encoding state space: characters, set of <<arity, max label length>>
 
-VARIABLES lvs, idx,     \* the metric, as in the code
+VARIABLES vtype,        \* m.Type, fixed when the metric is made
+          lvs, idx,     \* the metric, as in the code
           amap,         \* ideal: sequence of [labels, val, time, exp], labels pairwise distinct
           h,            \* Mode "walk": history of calls with the projected state after each
           probe         \* key-encoding state space: the tuple (or pair of tuples) examined
-vars == <<lvs, idx, amap, h, probe>>
+vars == <<vtype, lvs, idx, amap, h, probe>>
 
 M == [lvs |-> lvs, idx |-> idx]
 AllTuples == Tuples \o BadTuples
 NT == Len(Tuples)
 NA == Len(AllTuples)
 TupleNo(t) == CHOOSE i \in 1..NA : AllTuples[i] = t
+\* buildLabelValueKey of every tuple of the universe, computed once (TLC evaluates
+\* constant definitions once); observers use it, the methods compute Key themselves
+KeyTab == [i \in 1..NA |-> Key(AllTuples[i])]
 
 -----------------------------------------------------------------------------
-(* datum values per metrics.Type; timestamps: 0 = "stamped when made" *)
-Zero == [val  |-> CASE VType = "Buckets" -> <<0, 0, 0, 0>>   \* <<bucket le 1, bucket +Inf, Count, Sum>>
-                    [] OTHER -> 0,                           \* Int 0 / Float 0 / String ""
+(* datum values per metrics.Type; timestamp 0 = "as stamped by the constructor" *)
+Zero == [val  |-> IF vtype = "Buckets" THEN <<0, 0, 0, 0>>   \* <<bucket le 1, bucket +Inf, Count, Sum>>
+                  ELSE 0,                                    \* Int 0 / Float 0 / String ""
          time |-> 0]
 
 \* the datum operations the VM performs on a datum it looked up
 Updates ==
-  CASE VType = "Int"     -> {[f |-> "set", a |-> 1], [f |-> "inc", a |-> 2]}      \* Int.Set, Int.IncBy
-    [] VType = "Float"   -> {[f |-> "set", a |-> 1], [f |-> "set", a |-> 2]}      \* Float.Set
-    [] VType = "String"  -> {[f |-> "set", a |-> 1], [f |-> "set", a |-> 2]}      \* String.Set
-    [] VType = "Buckets" -> {[f |-> "obs", a |-> 1], [f |-> "obs", a |-> 3]}      \* Buckets.Observe
+  CASE vtype = "Int"     -> {[f |-> "set", a |-> 1], [f |-> "inc", a |-> 2]}      \* Int.Set, Int.IncBy
+    [] vtype = "Float"   -> {[f |-> "set", a |-> 1], [f |-> "set", a |-> 2]}      \* Float.Set
+    [] vtype = "String"  -> {[f |-> "set", a |-> 1], [f |-> "set", a |-> 2]}      \* String.Set
+    [] vtype = "Buckets" -> {[f |-> "obs", a |-> 1], [f |-> "obs", a |-> 3]}      \* Buckets.Observe
 
 \* bound on values (keeps the state space finite)
 CanApply(val, u) ==
-  CASE u.f = "inc" -> val <= 1
-    [] u.f = "obs" -> val[3] < 2
+  CASE u.f = "inc" -> val < ValBound
+    [] u.f = "obs" -> val[3] < ValBound
     [] OTHER -> TRUE
 
 ApplyUpd(d, u, ts) ==
@@ -71,12 +77,14 @@ ApplyUpd(d, u, ts) ==
 -----------------------------------------------------------------------------
 (* calls: records [op, t, u, ts, e] with dummies in unused fields *)
 NoU == [f |-> "none", a |-> 0]
+\* tuple numbers handed to calls for this metric
+Usable == (IF vtype \in WideTypes THEN 1..NT ELSE 1..2) \cup ((NT + 1)..NA)
 Call(op, ti, u, ts, e) == [op |-> op, t |-> ti, u |-> u, ts |-> ts, e |-> e]
 Calls ==
-  {Call("get", ti, NoU, 0, 0)    : ti \in 1..NA} \cup
-  {Call("update", ti, u, ts, 0)  : ti \in 1..NA, u \in Updates, ts \in 1..MaxTs} \cup
-  {Call("remove", ti, NoU, 0, 0) : ti \in 1..NA} \cup
-  {Call("expire", ti, NoU, 0, e) : ti \in 1..NA, e \in Expiries} \cup
+  {Call("get", ti, NoU, 0, 0)    : ti \in Usable} \cup
+  {Call("update", ti, u, ts, 0)  : ti \in Usable, u \in Updates, ts \in 1..MaxTs} \cup
+  {Call("remove", ti, NoU, 0, 0) : ti \in Usable} \cup
+  {Call("expire", ti, NoU, 0, e) : ti \in Usable, e \in Expiries} \cup
   {Call("oldest", 0, NoU, 0, 0), Call("emit", 0, NoU, 0, 0)}
 
 \* ---- implementation: apply the method to M; returns [M, err, created, pos, t] where
@@ -103,7 +111,7 @@ Do(m, c) ==
 \* the datum an update goes to must exist in the slice for CanApply to be evaluated
 Applicable(m, c) ==
   IF c.op # "update" \/ c.t > NT THEN TRUE
-  ELSE LET f == FindLabelValueOrNil(m, AllTuples[c.t])
+  ELSE LET f == FindByKey(m, KeyTab[c.t])
            p == IF f = NilId THEN 0 ELSE PosOfId(m, f)
        IN CanApply(IF p = 0 THEN Zero.val ELSE m.lvs[p].val, c.u)
 
@@ -145,8 +153,9 @@ Abs(m) == [i \in DOMAIN m.lvs |-> Strip(m.lvs[i])]
 \* entry points at (0 = no entry, -1 = entry pointing outside the slice)
 ProjLvs(m) == [i \in DOMAIN m.lvs |-> <<TupleNo(m.lvs[i].labels), m.lvs[i].val, m.lvs[i].time, m.lvs[i].exp>>]
 ProjIdx(m) == [ti \in 1..NT |->
-                 LET f == FindLabelValueOrNil(m, Tuples[ti]) IN
-                 IF f = NilId THEN 0 ELSE IF PosOfId(m, f) = 0 THEN -1 ELSE PosOfId(m, f)]
+                 LET f == FindByKey(m, KeyTab[ti])
+                     p == IF f = NilId THEN 0 ELSE PosOfId(m, f)
+                 IN IF f = NilId THEN 0 ELSE IF p = 0 THEN -1 ELSE p]
 Proj(m) == [l |-> ProjLvs(m), x |-> ProjIdx(m), n |-> Cardinality(DOMAIN m.idx)]
 
 \* EmitLabelSets: one LabelSet per element of the slice, in order
@@ -156,30 +165,26 @@ Obs(c, r) == [c |-> c, err |-> r.err, created |-> r.created, pos |-> r.pos, t |-
 
 -----------------------------------------------------------------------------
 (* behaviours *)
-Init == /\ lvs = <<>> /\ idx = <<>> /\ amap = <<>> /\ h = <<>> /\ probe = <<>>
+Init == /\ vtype \in VTypes
+        /\ lvs = <<>> /\ idx = <<>> /\ amap = <<>> /\ h = <<>> /\ probe = <<>>
 
 Step(c) ==
+  /\ Mode = "walk" => Len(h) < WalkLen
   /\ Applicable(M, c)
   /\ LET r == Do(M, c)
      IN /\ lvs' = r.M.lvs /\ idx' = r.M.idx
         /\ amap' = IDo(amap, c).A
         /\ h' = IF Mode = "walk" THEN Append(h, [o |-> Obs(c, r), s |-> Proj(r.M)]) ELSE h
-  /\ UNCHANGED probe
+  /\ UNCHANGED <<vtype, probe>>
 
-GetDatumA(ti)          == Step(Call("get", ti, NoU, 0, 0))
-UpdateA(ti, u, ts)     == Step(Call("update", ti, u, ts, 0))
-RemoveDatumA(ti)       == Step(Call("remove", ti, NoU, 0, 0))
-ExpireDatumA(ti, e)    == Step(Call("expire", ti, NoU, 0, e))
-RemoveOldestDatumA     == Step(Call("oldest", 0, NoU, 0, 0))
-EmitLabelSetsA         == Step(Call("emit", 0, NoU, 0, 0))
+GetDatumA          == \E ti \in Usable : Step(Call("get", ti, NoU, 0, 0))
+UpdateA            == \E ti \in Usable, u \in Updates, ts \in 1..MaxTs : Step(Call("update", ti, u, ts, 0))
+RemoveDatumA       == \E ti \in Usable : Step(Call("remove", ti, NoU, 0, 0))
+ExpireDatumA       == \E ti \in Usable, e \in Expiries : Step(Call("expire", ti, NoU, 0, e))
+RemoveOldestDatumA == Step(Call("oldest", 0, NoU, 0, 0))
+EmitLabelSetsA     == Step(Call("emit", 0, NoU, 0, 0))
 
-Next == /\ (Mode = "walk" => Len(h) < WalkLen)
-        /\ \/ \E ti \in 1..NA : GetDatumA(ti)
-           \/ \E ti \in 1..NA, u \in Updates, ts \in 1..MaxTs : UpdateA(ti, u, ts)
-           \/ \E ti \in 1..NA : RemoveDatumA(ti)
-           \/ \E ti \in 1..NA, e \in Expiries : ExpireDatumA(ti, e)
-           \/ RemoveOldestDatumA
-           \/ EmitLabelSetsA
+Next == \/ GetDatumA \/ UpdateA \/ RemoveDatumA \/ ExpireDatumA \/ RemoveOldestDatumA \/ EmitLabelSetsA
 Spec == Init /\ [][Next]_vars
 
 -----------------------------------------------------------------------------
@@ -205,59 +210,62 @@ EnabledCalls == {c \in Calls : Applicable(M, c)}
 \* C09: every call returns what the map would return: wrong length rejected, expire-absent an
 \* error, delete-absent no error, a lookup creates iff the tuple was absent and returns the
 \* element of that tuple
-ResultAgrees == \A c \in EnabledCalls :
-                  LET r == Do(M, c)  i == IDo(amap, c)
-                  IN r.err = i.err /\ r.created = i.created /\ r.pos = i.pos /\ r.t = i.t
+AgreesR(r, i) == r.err = i.err /\ r.created = i.created /\ r.pos = i.pos /\ r.t = i.t
+ResultAgrees == \A c \in EnabledCalls : AgreesR(Do(M, c), IDo(amap, c))
 
 \* C09: a rejected call changes nothing
-RejectedUnchanged == \A c \in EnabledCalls : Do(M, c).err => Do(M, c).M = M
+RejectedR(r) == r.err => r.M = M
+RejectedUnchanged == \A c \in EnabledCalls : RejectedR(Do(M, c))
 
 \* C08 (operational form): the datum of every tuple other than the one the call is about is
 \* untouched: same pointer, same value, timestamp, expiry, still (or still not) there
-DatumOf(m, t) == LET f == FindLabelValueOrNil(m, t)
-                     p == IF f = NilId THEN 0 ELSE PosOfId(m, f)
-                 IN IF p = 0 THEN <<"absent">> ELSE <<"present", m.lvs[p]>>
-OthersUntouched == \A c \in EnabledCalls :
-                     LET r == Do(M, c)
-                     IN \A ti \in 1..NT : ti # r.t => DatumOf(r.M, Tuples[ti]) = DatumOf(M, Tuples[ti])
+DatumOf(m, ti) == LET f == FindByKey(m, KeyTab[ti])
+                      p == IF f = NilId THEN 0 ELSE PosOfId(m, f)
+                  IN IF p = 0 THEN <<"absent">> ELSE <<"present", m.lvs[p]>>
+UntouchedR(r) == \A ti \in 1..NT : ti # r.t => DatumOf(r.M, ti) = DatumOf(M, ti)
+OthersUntouched == \A c \in EnabledCalls : UntouchedR(Do(M, c))
+
+\* the three step properties in one pass
+StepOK == \A c \in EnabledCalls :
+            LET r == Do(M, c) IN AgreesR(r, IDo(amap, c)) /\ RejectedR(r) /\ UntouchedR(r)
 
 \* C08: two tuples of the universe address the same element iff they are equal
 DistinctData == \A i, j \in 1..NT :
-                  LET a == DatumOf(M, Tuples[i])   b == DatumOf(M, Tuples[j])
+                  LET a == DatumOf(M, i)   b == DatumOf(M, j)
                   IN (a # <<"absent">> /\ b # <<"absent">> /\ a[2].id = b[2].id) => Tuples[i] = Tuples[j]
 
 -----------------------------------------------------------------------------
 (* emission (direction A) *)
 \* Mode "graph": every state prints itself and all its outgoing transitions; the check
 \* computes a transition-covering set of walks over this graph and replays them.
-Succ(m) == {[o |-> Obs(c, Do(m, c)), s |-> Proj(Do(m, c).M)] : c \in {c \in Calls : Applicable(m, c)}}
+Succ(m) == {LET r == Do(m, c) IN [o |-> Obs(c, r), s |-> Proj(r.M)] : c \in {c \in Calls : Applicable(m, c)}}
 Emit ==
-  CASE Mode = "graph" -> PrintT(<<"CASE", ToJson([s |-> Proj(M), out |-> Succ(M)])>>)
-    [] Mode = "walk"  -> (Len(h) = WalkLen => PrintT(<<"CASE", ToJson([walk |-> h])>>))
+  CASE Mode = "graph" -> PrintT(<<"CASE", ToJson([v |-> vtype, s |-> Proj(M), out |-> Succ(M)])>>)
+    [] Mode = "walk"  -> (Len(h) = WalkLen => PrintT(<<"CASE", ToJson([v |-> vtype, walk |-> h])>>))
     [] OTHER -> TRUE
 
-GraphView == <<lvs, idx>>
+\* pointers are interchangeable: states that differ only in the ids are one state
+View == <<vtype, Proj(M), amap, h>>
 
 -----------------------------------------------------------------------------
 (* the key encoding alone (C08) *)
 StrsUpTo(n) == UNION {[1..k -> Alphabet] : k \in 0..n}
 TuplesOver(a, n) == [1..a -> StrsUpTo(n)]
+KeyTuples == UNION {TuplesOver(d[1], d[2]) : d \in KeyDomains}
+Idle == vtype = "Int" /\ lvs = <<>> /\ idx = <<>> /\ amap = <<>> /\ h = <<>>
 
-KeyInitOne  == /\ probe \in TuplesOver(KeyArity, KeyMaxLen)
-               /\ lvs = <<>> /\ idx = <<>> /\ amap = <<>> /\ h = <<>>
-KeyInitPair == /\ probe \in TuplesOver(KeyArity, KeyMaxLen) \X TuplesOver(KeyArity, KeyMaxLen)
-               /\ lvs = <<>> /\ idx = <<>> /\ amap = <<>> /\ h = <<>>
-KeyInitAll  == /\ probe = <<>>
-               /\ lvs = <<>> /\ idx = <<>> /\ amap = <<>> /\ h = <<>>
+KeyInitOne  == probe \in KeyTuples /\ Idle                                \* every tuple
+KeyInitPair == probe \in UNION {TuplesOver(d[1], d[2]) \X TuplesOver(d[1], d[2]) : d \in KeyDomains} /\ Idle
+KeyInitAll  == probe = <<>> /\ Idle                                       \* one state, set-level check
 KeyNext == UNCHANGED vars
 
-\* the encoding under examination has a left inverse on this tuple
+\* the encoding under examination has a left inverse on this tuple (hence is injective)
 RoundTrip == Decode(Key(probe)) = probe
 \* C08, pairwise: equal keys only for equal tuples
 PairInjective == Key(probe[1]) = Key(probe[2]) => probe[1] = probe[2]
 \* C08, whole domain at once
-Injective == Cardinality({Key(t) : t \in TuplesOver(KeyArity, KeyMaxLen)})
-               = Cardinality(TuplesOver(KeyArity, KeyMaxLen))
+Injective == \A d \in KeyDomains :
+               Cardinality({Key(t) : t \in TuplesOver(d[1], d[2])}) = Cardinality(TuplesOver(d[1], d[2]))
 \* print the tuple with its key under the corrected design (k0) and under the deviation (k1)
 EmitKey == PrintT(<<"CASE", ToJson([t |-> probe, k0 |-> KeyWith(FALSE, probe), k1 |-> KeyWith(TRUE, probe)])>>)
 =============================================================================
